@@ -868,6 +868,8 @@ def real_partition_canonical(pr: PRun, spec, tab):
                 a = c - NAME_BASE
                 want_dt = np.dtype(G.spec_dtype(rk["nodes"], a))
                 want_shape = tuple(np.shape(G._dummy_value(rk["nodes"], a, spec["n"])))
+                if spec.get("scalar") and want_shape == (1,):
+                    want_shape = ()
                 if decl[nm] != (want_shape, want_dt):
                     problems.append(f"rank{r}:part{pid}:input-type-vs-program:{nm}:declared={decl[nm][1]}{decl[nm][0]}"
                                     f":program-node-{a}={want_dt}{want_shape}")
